@@ -373,13 +373,6 @@ theorem treeEq_validate_same_partial {d : Nat} {a b : NodeId} (env₁ env₂ : G
 
 /-! ## the tree read back means the same (trees WITH references: both sides resolved) -/
 
-theorem orderOK_of_nodeOK (n : Node) (h : Go.nodeOK n = true) : Go.RIso.orderOK n = true := by
-  simp only [Go.nodeOK, Bool.and_eq_true] at h
-  have hm : Go.basicChecksOk n = true := h.1.1.1.1.1.1.1.1.1.1.1.1.1
-  rw [Go.basicChecksOk_eq] at hm
-  simp only [Bool.and_eq_true] at hm
-  exact hm.1.2
-
 /-- `treeEq_resolves_partial`: **Resolve commutes with the JSON round trip** (self-contained resolution: no Loader, or
     a Loader that hands out no document — `Go.RIso.NoDocs`).  `b` in `st'` is the tree read back from the well-formed
     tree below `a` in `st` (`Go.TreeEq`); the maps of `st` have distinct keys (`Go.RPerm.StoreKeysNodup`: they are Go
@@ -407,7 +400,7 @@ theorem treeEq_resolves_partial (st st' : Store) (env : Go.Env) (hnd : Go.RIso.N
           Spec.valid (Go.RIso.specOf st rs reMatch) vfuel a inst =
             Spec.valid (Go.RIso.specOf st' rs' reMatch) vfuel b inst := by
   obtain ⟨rs', h₂, e1, e2, e3⟩ := Go.RIso.treeEq_resolves st st' env hnd hk hs hs' hte
-    (Go.treeAll_imp orderOK_of_nodeOK hwf) fuel base h₁ hcs
+    (Go.treeAll_imp Go.RIso.orderOK_of_nodeOK hwf) fuel base h₁ hcs
   exact ⟨rs', h₂, e1, e2, fun reMatch vfuel inst hinst =>
     ⟨e3 reMatch vfuel inst hinst, Iso.valid_of_outSim (e3 reMatch vfuel inst hinst)⟩⟩
 
